@@ -32,6 +32,7 @@ def risk_case(item):
     bt = rt.bt()
     shape, mult, positions, variant, history, ndate = item[:6]
     close_after = item[6] if len(item) > 6 else None
+    on = list(item[7]) if len(item) > 7 and item[7] else []  # the strategy whose stack holds UpdateRisk (default: the root)
     spec = {"shape": shape, "integer": False, "capital": 1024.0, "mult": mult}
     if shape == "T2":
         spec["prefund"] = [[[], "s1", 256.0], [[], "s2", 128.0]]
@@ -61,8 +62,9 @@ def risk_case(item):
             for (path, k), q in zip(secs, positions):
                 if q != 0.0:
                     t.apply(["transact", path, k, q])
+        top = t.node(on)
         for m in tables:
-            algos[m](t.root)
+            algos[m](top)
         if close_after is not None and di == close_after:
             # positions closed AFTER this date's risk update: the next update must see them flat
             for (path, k), q in zip(secs, positions):
@@ -81,12 +83,13 @@ def risk_case(item):
                 ur_ = u[now_i] if u is not None else 0.0
                 return ur_ * float(n.position) * float(n.multiplier)
 
-            for n in t.root.members:
+            base_depth = len(on)
+            for n in top.members:
                 exp = ref(n)
                 got = getattr(n, "risk", {}).get(m, None)
                 if got is None or not (abs(float(got) - exp) <= 1e-9 * max(1.0, abs(exp))):
                     viols.append({"rule": "risk_aggregation", "expected": {"node": n.full_name, "measure": m, "date": str(t.root.now), "risk": exp}, "observed": got})
-                depth = n.full_name.count(">")
+                depth = n.full_name.count(">") - base_depth  # levels below the strategy the algo was called on
                 has_hist = hasattr(n, "risks")
                 if (depth < history) != has_hist:
                     viols.append({"rule": "risk_history_depth", "expected": {"node": n.full_name, "depth": depth, "history": history, "has_risks": depth < history}, "observed": has_hist})
@@ -346,6 +349,9 @@ def run(ctx):
                         risk.append((shape, mult, positions, variant, history, 2))
                     if any(q != 0.0 for q in positions):
                         risk.append((shape, mult, positions, variant, 1, 3, 1))
+                    if shape == "T2" and any(q != 0.0 for q in positions[:2]):
+                        for history in (1, 2):
+                            risk.append((shape, mult, positions, variant, history, 2, None, ["s1"]))
     hedge = []
     for measures in (("M1",), ("M2",), ("M1", "M2")):
         for instruments in (("h1",), ("h2",), ("h1", "h2"), ("h1", "h2", "h3"), ("h3", "h1")):
